@@ -51,7 +51,8 @@ TRUSTED = [
     "methods only (the generic 20-method dispatcher is not instantiated: compile time)",
     "reference spectrum: Eigen::SelfAdjointEigenSolver on the model's matrix (independent of tapkee's front-ends)",
     "neighbour search itself is C02's property: the end-to-end stream uses the lists find_neighbors returns",
-    "translate/t_eig.py table gen/EigSelect.v (owned by C05) for the selection theorems",
+    "translators (regex grammars, trusted to report what the source says): translate/t_hlle.py -> gen/HlleLoop.v "
+    "(HLLE product loop; self-test with seeded edits in the thorough tier), translate/t_eig.py (C05) -> gen/EigSelect.v",
     "g++ ASan/UBSan/_GLIBCXX_ASSERTIONS as the memory-safety observer (HLLE column bookkeeping, F6; eigenvalue slice, F7)",
 ]
 
@@ -557,8 +558,9 @@ def local_gap_ok(mats, k, d, rel=1e-7):
     return True
 
 
-def model_feasible(c, nb, quick):
-    """cost guard for the extracted exact arithmetic (Qc over unary-constructor integers)"""
+def model_feasible(c, nb, quick, stats=None):
+    """cost guard for the extracted exact arithmetic (Qc over unary-constructor integers); deterministic
+    (depends on the case and on how many heavy cases were already run), so that counts are reproducible"""
     n, d, k = c["n"], c["d"], len(nb[0])
     if c["meth"] == "lle":
         return k <= 5 and n <= 12
@@ -567,10 +569,27 @@ def model_feasible(c, nb, quick):
     if "flatX" in c:
         if d <= 2:
             return k <= 9 and n <= 12
-        if d == 3:
-            return (k <= 10 and n <= 13) if quick else k <= 12
-        return (not quick) and k <= 16
+        ok = (d == 3 and k <= (10 if quick else 12) and n <= 14) or (d == 4 and not quick and k <= 15)
+        if ok and stats is not None:
+            key = "heavy_d%d" % d
+            if stats.heavy.get(key, 0) <= 0:
+                return False
+            stats.heavy[key] -= 1
+        return ok
     return d == 1 and k <= 4 and n <= 8
+
+
+def local_flat_ok(mats, k, d):
+    """hypothesis of C08_*_affine_on_flat observed on the oracle answers: every neighbourhood has exactly d
+    non-zero local eigenvalues"""
+    lam = mats.get("lamloc")
+    if not finite(lam) or d >= k:
+        return False
+    for row in lam:
+        top = max(abs(float(x)) for x in row) or 1.0
+        if float(row[k - d]) <= 1e-7 * top or abs(float(row[k - d - 1])) > 1e-9 * top:
+            return False
+    return True
 
 
 class Stats:
@@ -582,6 +601,7 @@ class Stats:
                        "emb_centred_checked": 0, "emb_affine_checked": 0, "eig_contract_calls": 0,
                        "model_oob_agree": 0, "exceptions": 0, "f7_seen": 0, "hlle_ill_conditioned": 0}
         self.samples = []
+        self.heavy = {"heavy_d3": 2, "heavy_d4": 0}   # exact HLLE model runs with 10 / 15 Gram-Schmidt columns
 
     def bump(self, c):
         self.hist[c.get("gen", "?")] = self.hist.get(c.get("gen", "?"), 0) + 1
@@ -783,7 +803,7 @@ def evaluate(ctx, exe, mexe, cases, stats):
         if c["meth"] in ("ltsa", "hlle") and not (finite(res["mats"].get("Eloc")) and finite(res["mats"].get("rsk"))):
             ctx.mismatch(slim(c), "local eigensolver output missing or non-finite")
             continue
-        if not model_feasible(c, nb, ctx.quick):
+        if not model_feasible(c, nb, ctx.quick, stats):
             continue    # exact arithmetic too expensive: the case only feeds the end-to-end clauses
         if c["meth"] == "hlle" and not hlle_well_conditioned(c, nb, res["mats"]):
             # some Gram-Schmidt column is (nearly) dependent on the earlier ones: the C++ normalises rounding
@@ -835,6 +855,13 @@ def evaluate(ctx, exe, mexe, cases, stats):
         mu = fr(c["shift"]) if c["meth"] in ("lle", "ltsa") else Fraction(0)
         gap = min(lam[1:1 + d]) - mu
         centred = gap > Fraction(1, 10 ** 4) * top and abs(lam[0] - mu) <= Fraction(1, 10 ** 6) * top
+        # the centring clause presupposes M 1 = mu 1 (C08_embed_centred): true of the model's matrix; where the
+        # reference is the implementation's own matrix (no exact model run) it must hold of that matrix, and
+        # HLLE neighbourhoods must be well conditioned (otherwise the C++ normalises rounding noise)
+        if centred and max(abs(sum(row) - mu) for row in S) > Fraction(1, 10 ** 9) * top:
+            centred = False
+        if centred and c["meth"] == "hlle" and not hlle_well_conditioned(c, nb, res["mats"]):
+            centred = False
         emb_lines.append("EMB %d %d %s 0 %s %s %s" % (n, d, q_tok(tol), q_tok(round53(opt)), qmat_text(S), qmat_text(Y)))
         emb_meta.append((t, "cost", lam))
         if centred:
@@ -864,6 +891,10 @@ def evaluate(ctx, exe, mexe, cases, stats):
     # ---- affine clause on flat data (LTSA / HLLE), a numerical test of the property's last sentence
     for t, (c, res, nb) in emb:
         if "flatX" not in c or c["meth"] not in ("ltsa", "hlle"):
+            continue
+        if c["meth"] == "hlle" and not hlle_well_conditioned(c, nb, res["mats"]):
+            continue
+        if not local_flat_ok(res["mats"], len(nb[0]), c["d"]):
             continue
         Y = res["mats"]["emb"]
         if not finite(Y):
@@ -915,17 +946,43 @@ def build_cases(ctx, rng, budget, thorough):
 
 
 QUICK = {"lle": 40, "ltsa": 30, "hlle_flat": 24, "hlle_oracle": 3, "malformed": 6, "emb": 12, "f7": 1}
-THOROUGH = {"lle": 400, "ltsa": 300, "hlle_flat": 200, "hlle_oracle": 40, "malformed": 30, "emb": 100, "f7": 3}
+THOROUGH = {"lle": 240, "ltsa": 180, "hlle_flat": 120, "hlle_oracle": 12, "malformed": 24, "emb": 60, "f7": 2}
 SEARCH = {"lle": 120, "ltsa": 80, "hlle_flat": 60, "hlle_oracle": 10, "malformed": 0, "emb": 40, "f7": 0}
+
+
+def translate(ctx, self_test=False):
+    """T-hlle (mine) and T-eig (C05's): regenerate the tables the theorems are stated over from the current tree"""
+    import importlib
+    import os
+    import sys
+    sys.path.insert(0, os.path.join(ctx.verif, "translate"))
+    for mod, out in (("t_hlle", "HlleLoop.v"), ("t_eig", "EigSelect.v")):
+        try:
+            t = importlib.import_module(mod)
+            text = t.emit(t.parse(ctx.repo))
+            changed = t.write_if_changed(os.path.join(ctx.verif, "coq", "gen", out), text)
+            ctx.note("%s: table %s" % (mod, "rewritten" if changed else "unchanged"))
+            if self_test and mod == "t_hlle":
+                bad = t.self_test(ctx.repo)
+                if bad:
+                    ctx.unshown("translator t_hlle self-test: seeded edits not detected: %s" % bad)
+        except OSError as ex:
+            ctx.unshown("translator %s: cannot read the source: %s" % (mod, ex))
+        except Exception as ex:      # TranslateError of either module
+            ctx.unshown("translator %s: the source is no longer understood (%s): %s"
+                        % (mod, type(ex).__name__, str(ex)[:300]))
 
 
 def run(ctx):
     rng = ctx.rng
+    translate(ctx, self_test=not ctx.quick)
     ctx.coq()
     exe = ctx.cpp("harness/c08.cpp", extra=CXX_EXTRA)
     mexe = ctx.extract()
     stats = Stats()
     thorough = not ctx.quick
+    if thorough:
+        stats.heavy = {"heavy_d3": 8, "heavy_d4": 1}
     cases = []
     for name, c in ctx.corpus():
         c = dict(c)
